@@ -704,6 +704,8 @@ class Hist:
                 d.append("solver object shared")
             if d:
                 raise Violation("copy_equal", {"diff(original,copy)": d[:8]}, culprit=op)
+        if "ref_equal" in self.oracles:
+            self._judge_content(b, snap, f"new model made by {op['op']}", op)
         self._invariants(b, snap, op)
 
     # ---- real operations --------------------------------------------------------------
@@ -903,6 +905,16 @@ class Hist:
         if ent is None or ent[0].model is not None:
             raise Skip("no removed reaction object of that id")
         obj, spec = ent
+        if op.get("how") == "rename":
+            # the detached object gets a new identifier (it has no model: nothing but the object changes); it is registered under
+            # the new identifier and may come back into the model under it
+            new = op["new"]
+            if a.model.reactions.has_id(new) or (self.actors.index(a), new) in self.removed:
+                raise Skip("identifier in use")
+            obj.id = new
+            self.removed[(self.actors.index(a), new)] = self.removed.pop(key)
+            self.stats["probe:removed_reaction_object_renamed"] += 1
+            return
         if op.get("how") == "cancel":
             # a metabolite of the removed reaction is cancelled out (the model's metabolites do not list this reaction any more)
             mets = sorted(obj._metabolites, key=lambda m: m.id)
@@ -1059,6 +1071,9 @@ class Hist:
             return " + ".join((f"{n} {m}" if n is not None else m) for m, n in items)
 
         s = f"{side(op['left'])} {op['arrow']} {side(op['right'])}"
+        if op.get("bad_term"):
+            s = s + (" + " if op["right"] else " ") + op["bad_term"]  # a term the parser cannot read, after terms it can
+            self.stats["probe:equation_with_malformed_last_term"] += 1
         r = self.rxn(a, op["r"])
         if op.get("via") == "setter":
             r.reaction = s
@@ -1400,15 +1415,20 @@ class Hist:
     def do_rxn_arith(self, a, op, env):
         r = self.rxn(a, op["r"])
         if op.get("poison"):
-            # the deep copy inside Reaction.copy fails (a value that cannot be copied): the operand stays what and where it was
-            r.notes["__uncopyable__"] = (i for i in range(2))
+            # the deep copy inside Reaction.copy / Metabolite.copy fails (a value that cannot be copied): the operand, its metabolites
+            # and genes stay what and where they were
+            holder = r
+            if op["poison"] == "met" and r._metabolites:
+                holder = sorted(r._metabolites, key=lambda m: m.id)[0]
+            holder.notes["__uncopyable__"] = (i for i in range(2))
             try:
-                try:
-                    r.copy() if op["f"] in ("+0", "0+", "sum1") else r * 2
-                except TypeError:
-                    self.stats["probe:reaction_copy_failed_half_way"] += 1
+                for fn in ((lambda: holder.copy()), (lambda: r.copy() if op["f"] in ("+0", "0+", "sum1") else r * 2)):
+                    try:
+                        fn()
+                    except TypeError:
+                        self.stats["probe:reaction_copy_failed_half_way"] += 1
             finally:
-                r.notes.pop("__uncopyable__", None)
+                holder.notes.pop("__uncopyable__", None)
             return
         if op["f"] == "*":
             c = r * op["k"]
@@ -1573,7 +1593,7 @@ ALL_KINDS = {
 }
 
 PROP_BIAS = {
-    "C01": {"helper": 2, "merge": 2, "solver": 3, "copy": 1, "pickle": 1, "deepcopy": 1, "enter": 2, "exit": 3, "exit_exc": 1},
+    "C01": {"removed_mutate": 2, "helper": 2, "merge": 2, "solver": 3, "copy": 1, "pickle": 1, "deepcopy": 1, "enter": 2, "exit": 3, "exit_exc": 1},
     "C02": {},
     "C03": {"enter": 6, "exit": 6, "exit_exc": 2, "helper": 3, "merge": 2, "rename_rxn": 0, "rename_met": 0, "repair": 1, "solver": 0,
             "tolerance": 0, "compartments": 0, "add_groups": 0, "remove_groups": 0, "set_attr": 0,
@@ -1638,6 +1658,10 @@ def make_swarm(rng, prop, run_cfg):
         sw["noise"] = True
         for k in ("copy", "deepcopy", "pickle", "merge", "prune", "solver", "restart"):
             weights.pop(k, None)
+        # ... and no solves: GLPK's exact simplex needs minutes of rational arithmetic on a coefficient like 1e-13 (a run of C02 hung
+        # until the watchdog killed its process); these runs are about the structure of the problem, not its solution
+        for k in ("optimize", "slim_optimize", "helper"):
+            weights.pop(k, None)
         for k in ("add_mets", "sub_mets"):
             weights[k] = weights.get(k, 3) * 3
     if not weights:
@@ -1667,6 +1691,10 @@ def _fresh(prefix, existing, rng):
         if c not in existing:
             return c
     return f"{prefix}x{rng.randint(1000, 9999)}"
+
+
+def prop_is_c11(sw):
+    return bool(sw.get("restart_formats")) and "sbml" not in sw["restart_formats"]
 
 
 def gen_op(rng, H, sw):
@@ -1706,7 +1734,7 @@ def gen_op(rng, H, sw):
         if rids and rng.random() < 0.06 and (x := rng.choice(rids)) not in ref.mets and len(x) < 200:
             i = x  # an identifier that a reaction of the model already has: the kinds have separate namespaces
         if inv and rng.random() < 0.3:
-            i = rng.choice(["bad id", "tab\tid"])
+            i = rng.choice(["bad id", "tab\tid", "nl_id\n"])
         return {"t": "new", "id": i, "name": rng.choice(["", "new met"]), "formula": rng.choice([None, "H2O"]),
                 "charge": rng.choice([None, 0, 1]), "compartment": rng.choice(["c", "e", None])}
 
@@ -1746,6 +1774,9 @@ def gen_op(rng, H, sw):
             lb, ub = rng.choice([-100 / 3, -0.1 - 0.2, -1 / 7, 0]), rng.choice([0.1 + 0.2, 100 / 7, 2 / 3, 1e-3 / 3])
         if not inv and how == "bounds" and lb > ub:
             lb, ub = ub, lb
+        if inv and rng.random() < 0.15:
+            lb = float("nan") if rng.random() < 0.5 else lb  # not a number: refused like lb > ub
+            ub = float("nan") if lb == lb else ub
         op.update(r=rid(), how=how, lb=lb, ub=ub)
     elif k == "knock_out_rxn":
         op["r"] = rid()
@@ -1783,10 +1814,10 @@ def gen_op(rng, H, sw):
             op.update(tree=None, rule=rng.choice(["g1 and", "(g1", "g1 or or g2"]), malformed=True)
     elif k == "rename_rxn":
         nf = _awkward if sw.get("awkward") and rng.random() < 0.7 else _fresh
-        op.update(r=rid(), new=(rng.choice([rid(), "bad id", LONG_ID]) if inv else nf("Q", ref.rxns, rng)))
+        op.update(r=rid(), new=(rng.choice([rid(), "bad id", LONG_ID, "Rnl\n"]) if inv else nf("Q", ref.rxns, rng)))
     elif k == "rename_met":
         nf = _awkward if sw.get("awkward") and rng.random() < 0.7 else _fresh
-        op.update(m=mid(), new=(rng.choice([mid(), "bad id"]) if inv else nf("Z", ref.mets, rng)))
+        op.update(m=mid(), new=(rng.choice([mid(), "bad id", "Mnl\n"]) if inv else nf("Z", ref.mets, rng)))
     elif k == "set_attr":
         kind = rng.choice(["rxn", "rxn", "met", "met", "gene"])
         if kind == "rxn":
@@ -1794,7 +1825,7 @@ def gen_op(rng, H, sw):
         elif kind == "met":
             attr = rng.choice(["name", "formula", "charge", "compartment"])
             val = {"name": rng.choice(["", "nm"]), "formula": rng.choice([None, "H2O", "C2H4"]),
-                   "charge": rng.choice([None, 0, -2]), "compartment": rng.choice(["c", "e", "p"])}[attr]
+                   "charge": rng.choice([None, 0, -2] + ([1.5, -0.5] if prop_is_c11(sw) else [])), "compartment": rng.choice(["c", "e", "p"])}[attr]
             op.update(kind=kind, id=mid(), attr=attr, value=val)
         else:
             op.update(kind=kind, id=(rng.choice(gids) if gids else "g0"), attr="name", value=rng.choice(["", "gene n"]))
@@ -1846,7 +1877,7 @@ def gen_op(rng, H, sw):
             m.pop("t")
             ms.append(m)
         if inv and rng.random() < 0.5:
-            ms[-1]["id"] = "bad met"
+            ms[-1]["id"] = rng.choice(["bad met", "Mnl\n"])
         op.update(mets=ms, single=rng.random() < 0.3)
         if rng.random() < 0.08:
             op.update(twice=True, single=False)
@@ -1882,7 +1913,7 @@ def gen_op(rng, H, sw):
         if len({s["id"] for s in specs}) != len(specs) and not inv:
             specs = specs[:1]
         if inv and rng.random() < 0.5:
-            specs[-1]["id"] = "bad rxn"  # an id the solver interface rejects (whitespace)
+            specs[-1]["id"] = rng.choice(["bad rxn", "bad rxn", "Rnl\n"])  # an id the solver interface rejects (whitespace)
         elif inv and rng.random() < 0.5:
             specs[-1]["lb"], specs[-1]["ub"] = 5, 1  # bounds no setter would accept
         elif inv and rng.random() < 0.5:
@@ -2005,6 +2036,8 @@ def gen_op(rng, H, sw):
             (left if rng.random() < 0.5 else right).append(rng.choice(chosen))
         op.update(r=rid(), left=f(left), right=f(right), arrow=rng.choice(["-->", "<=>", "<--"]),
                   via=rng.choice(["method", "setter"]))
+        if inv and rng.random() < 0.5:
+            op["bad_term"] = rng.choice(["2 x Q9", "1,5 Q9", "two Q9 Q8"])
     elif k == "optimize":
         if rng.random() < 0.4:
             op["sense"] = rng.choice(["maximize", "minimize"])
@@ -2088,6 +2121,8 @@ def gen_op(rng, H, sw):
         op.update(rid=r0, rule=rng.choice([keep, f"{keep} or {rng.choice(GENES[: sw['n_genes']])}", f"{keep} and gX"]))
         if rng.random() < 0.3:
             op.update(how="cancel", j=rng.randint(0, 3))
+        elif rng.random() < 0.3:
+            op.update(how="rename", new=_fresh("REN", ref.rxns, rng))
     elif k == "det_mutate":
         dets = sorted(H.detached)
         if not dets:
@@ -2105,7 +2140,7 @@ def gen_op(rng, H, sw):
         f = rng.choice(["*", "+", "-", "+0", "0+", "sum1"])
         op.update(r=rid(), f=f, key=f"d{len(H.detached)}")
         if rng.random() < 0.08:
-            op["poison"] = True
+            op["poison"] = rng.choice([True, "met"])
         if f == "*":
             op["k"] = rng.choice(MULTS)
         elif f in ("+", "-"):
